@@ -395,10 +395,17 @@ func (p *KVStore) RegisterAttempt(_ context.Context, paymentHash lntypes.Hash,
 			return err
 		}
 
-		err = htlcsBucket.Put(
-			htlcBucketKey(htlcAttemptInfoKey, htlcIDBytes),
-			htlcInfoBytes,
-		)
+		// An attempt ID identifies exactly one HTLC attempt. Refuse to
+		// overwrite an attempt that is already recorded for this
+		// payment (in flight, settled or failed), otherwise its amount
+		// would silently drop out of the sent total.
+		attemptKey := htlcBucketKey(htlcAttemptInfoKey, htlcIDBytes)
+		if htlcsBucket.Get(attemptKey) != nil {
+			return fmt.Errorf("%w: attempt_id=%d",
+				ErrAttemptAlreadyRegistered, attempt.AttemptID)
+		}
+
+		err = htlcsBucket.Put(attemptKey, htlcInfoBytes)
 		if err != nil {
 			return err
 		}
